@@ -6,8 +6,12 @@ CALL_FILES = ["kvstore/kvstore.go", "kvstore/mapdb/mapdb.go", "kvstore/mapdb/syn
               "kvstore/debug/debug.go", "kvstore/utils/utils.go"]
 
 
+WRAP_FILES = ["kvstore/flushkv/flushkv.go", "kvstore/debug/debug.go"]
+
+
 def regen(ctx):
-    """Two regenerated modules, both pinned by `rfl` obligations in Hive/Props/C04.lean:
+    """Three regenerated modules (the first two pinned by `rfl` obligations in Hive/Props/C04.lean, the third is the INPUT of the
+    theorems C04_wrapper_model_is_the_source_*):
     Hive/Gen/C04_Skel.lean  - type facts (struct fields of the stores and batches, underlying types of IterDirection / Command / BitMask);
     Hive/Gen/C04_Calls.lean - for every function of the anchored kvstore files the calls it makes, in source order, with the
                               arguments expressed by parameter positions (harness/c04/gen)."""
@@ -23,6 +27,17 @@ def regen(ctx):
                           cwd=checklib.HARNESS, timeout=600)
     if rc != 0 or not os.path.exists(tmp):
         return fails + [{"kind": "call-extractor", "detail": checklib.tail(log, 20)}]
+    checklib.write_gen(ctx, out, open(tmp).read())
+    # Hive/Gen/C04_Wrap.lean: the method bodies of flushkv.go / debug.go translated into the statement language of
+    # Hive/Model/KVWrapSrc.lean (harness/c04/wgen); the wrapper model is proved to be their interpretation
+    out = os.path.join(checklib.LEAN, "Hive", "Gen", "C04_Wrap.lean")
+    tmp = os.path.join(ctx.scratch, "C04_Wrap.lean")
+    if os.path.exists(tmp):
+        os.remove(tmp)
+    rc, log = checklib.sh(["go", "run", "./c04/wgen", tmp, "Hive.Gen.C04Wrap"] + [os.path.join(ctx.repo, f) for f in WRAP_FILES],
+                          cwd=checklib.HARNESS, timeout=600)
+    if rc != 0 or not os.path.exists(tmp):
+        return fails + [{"kind": "wrapper-translator", "detail": checklib.tail(log, 20)}]
     checklib.write_gen(ctx, out, open(tmp).read())
     return fails
 
@@ -46,6 +61,8 @@ SPEC = {
                  "C04_mem_get_returns_a_private_copy", "C04_extended_realm_is_a_private_copy", "C04_withRealm_keeps_the_callers_slice",
                  "C04_batch_keeps_private_key_copies", "C04_mem_commit_stores_copies", "C04_iterate_keys_hands_out_copies",
                  "C04_iterate_hands_out_key_and_value_copies",
+                 "C04_wrapper_model_is_the_source_flushkv", "C04_wrapper_model_is_the_source_debug", "C04_wrapper_constructors_text",
+                 "C04_trace_model_is_sem",
                  "C04_calls_mapdb", "C04_calls_flushkv", "C04_calls_debug", "C04_calls_kvstore_utils", "C04_skeleton_types"],
     "trusted_base": [
         "hand-written model Hive/Model/KV.lean of kvstore/mapdb (+ flushkv, debug wrappers), tied to the working tree by "
